@@ -194,3 +194,21 @@ def r4(ctx):
     for r in list(c09.r1(ctx)) + list(c09.r2(ctx)):
         r.rule = "C02-R4"
         yield r
+
+
+import c12  # noqa: E402
+import c03  # noqa: E402
+
+
+@M.rule("C02-R5", "the request that is canonicalised is the request received: folding writes confined, only parts.uri/body rewritten (shared with C12-R2)")
+def r5(ctx):
+    for r in c12.r2(ctx):
+        r.rule = "C02-R5"
+        yield r
+
+
+@M.rule("C02-R6", "a request whose scope names the server's region/service and the request's own UTC date passes the scope rule (shared with C03-R2)")
+def r6(ctx):
+    for r in c03.r2(ctx):
+        r.rule = "C02-R6"
+        yield r
